@@ -335,6 +335,10 @@ func shapeInteraction(it *ON, w string) *shapeErr {
 			if e := onlyKeys(rq, w+"/request", "headers", "body"); e != nil {
 				return e
 			}
+			if rq.Get("body") == nil {
+				// (the language requires a body for every Request: a request object without one is incomplete)
+				return se("missing-field:request.body", "%s: the request has no body", w)
+			}
 			if e := shapeHeadersBody(rq, w+"/request", false); e != nil {
 				return e
 			}
